@@ -15,7 +15,7 @@ func zzIKGet(m *IntKeyMap, k int32) (int64, bool) {
 	return v, ok
 }
 
-//vf: paths=20000
+// vf: paths=20000
 func ZZ_C12_IntKeyMap_PutAllIndependent() {
 	capA := 1 + zzvf.Choose(3) // 1..3 buckets
 	capB := 1 + zzvf.Choose(3)
